@@ -298,11 +298,11 @@ func main() {
 		run.Finish()
 	}
 
-	nOrig := run.N(6000, 60000)     // ~25 originators each
-	nMsg := run.N(8000, 120000)     // ~12 messages each
-	nBatch := run.N(320, 8000)      // handler batches of handlerBatchSize cases
-	nChain := run.N(64, 1500)       // chain histories
-	nTickChunks := run.N(256, 8192) // chunks of random prices
+	nOrig := run.N(6000, 100000)     // ~25 originators each
+	nMsg := run.N(8000, 200000)      // ~12 messages each
+	nBatch := run.N(320, 16000)      // handler batches of handlerBatchSize cases
+	nChain := run.N(64, 4000)        // chain histories
+	nTickChunks := run.N(256, 20000) // chunks of random prices
 	timed(run, "orig", func() { sim.Parallel(nOrig, 16, func(i int) { caseOrig(run, i) }) })
 	timed(run, "msg", func() { sim.Parallel(nMsg, 16, func(i int) { caseMsg(run, i) }) })
 	timed(run, "tick-table", func() { tickSanity(run) })
